@@ -175,6 +175,15 @@ class Run:
 
     # -- path condition ---------------------------------------------------------------------
     def _add(self, c):
+        """Add a constraint to the path condition.  A cached model survives only if it satisfies c
+        (without completing the model: a constraint over new variables drops it)."""
+        if self.model is not None:
+            try:
+                v = self.model.eval(c, model_completion=False)
+                if not z3.is_true(v):
+                    self.model = None
+            except z3.Z3Exception:
+                self.model = None
         self.pc.append(c)
         if self._inc is not None:
             self._inc.add(c)
